@@ -42,6 +42,7 @@ import (
 	"github.com/tochemey/goakt/v4/internal/codec"
 	"github.com/tochemey/goakt/v4/internal/internalpb"
 	"github.com/tochemey/goakt/v4/internal/remoteclient"
+	"github.com/tochemey/goakt/v4/internal/verifhook"
 	"github.com/tochemey/goakt/v4/log"
 )
 
@@ -900,6 +901,7 @@ func allocateActors(leaderRoles []string, peers []*cluster.Peer, nodeLeftState *
 			continue
 		}
 
+		verifhook.At("reloc.assign", nodeLeftState, int64(best), int64(loads[best]))
 		peersShares[best] = append(peersShares[best], actor)
 		loads[best]++
 	}
